@@ -35,8 +35,8 @@ Next == /\ c.kind = "none"
            \* key bundles: the circuit-bootstrapping key built by its bundle routine, with a different radix / precision (hence noise
            \* level) for each sub-key; one experiment per (sub-key, back-end, shape variant); 3 Galois elements at N = 8, 4 LWE coefficients
            \/ \E part \in {"brk", "atk", "tsk"}, be \in 0..3, v \in CbkVariants :
-                LET shapes == IF v = 1 THEN [brk |-> <<3, 4, 2, 1>>, atk |-> <<4, 4, 2, 1>>, tsk |-> <<3, 5, 2, 1>>]
-                                       ELSE [brk |-> <<4, 3, 3, 1>>, atk |-> <<3, 5, 2, 2>>, tsk |-> <<4, 4, 2, 2>>]
+                LET shapes == IF v = 1 THEN [brk |-> <<3, 4, 2, 1>>, atk |-> <<3, 5, 2, 1>>, tsk |-> <<4, 4, 2, 1>>]
+                                       ELSE [brk |-> <<4, 3, 3, 1>>, atk |-> <<4, 4, 2, 2>>, tsk |-> <<3, 5, 2, 2>>]
                     coefs == CASE part = "brk" -> 4 * 8 * shapes.brk[3] * 3 [] part = "atk" -> 3 * 8 * shapes.atk[3] * 2 [] OTHER -> 8 * shapes.tsk[3] * 4
                 IN c' = With(Base("stat", "cbk", shapes[part][1], shapes[part][2], 2), [part |-> part, variant |-> v, be |-> be, nlwe |-> 4, brk |-> shapes.brk, atk |-> shapes.atk,
                                                                                          tsk |-> shapes.tsk, reps |-> (Reps + coefs - 1) \div coefs])
